@@ -55,9 +55,11 @@ def run_one(m: dict) -> tuple[str, bool, str]:
             run = Run(m["pid"], Source(overlay=overlay), "quick")
             mod.check(run)
         except AnalysisError as e:
-            if m["expect"] == "ERROR":
-                return m["name"], True, f"analysis refused: {e}"
-            return m["name"], False, f"ANALYSIS-ERROR {e}"
+            known = {(k["property"], k["key"]) for k in load_known().get("findings", [])}
+            if not any((m["pid"], f.key) not in known for f in run.findings):  # same policy as sa.cli: findings outlive a later refusal
+                if m["expect"] == "ERROR":
+                    return m["name"], True, f"analysis refused: {e}"
+                return m["name"], False, f"ANALYSIS-ERROR {e}"
         known = {(k["property"], k["key"]) for k in load_known().get("findings", [])}
         run.findings = [f for f in run.findings if (m["pid"], f.key) not in known]
         rules = sorted({f.rule for f in run.findings})
